@@ -8,7 +8,7 @@ import (
 	"strconv"
 
 	"verif/mc/core"
-	_ "verif/mc/props"
+	"verif/mc/props"
 )
 
 func main() {
@@ -34,6 +34,8 @@ func main() {
 		os.Exit(core.WorkerMain(os.Args[2], os.Args[3], sh, n, os.Args[6]))
 	case "replay":
 		os.Exit(core.ReplayMain(os.Args[2]))
+	case "corpus":
+		props.DumpCorpus()
 	case "list":
 		for _, id := range core.Props() {
 			fmt.Println(id)
